@@ -72,6 +72,9 @@ def gen_values(rng, w, n):
 def gen_scenario(rng, big=False):
     nin = rng.randint(1, 4)
     inputs = [{'w': rng.choice(WIDTHS), 'reg': rng.random() < .6, 'inv': rng.random() < .4} for _ in range(nin)]
+    for inp in inputs:                         # power-up value of the register (no reset wire: it only shows before the first edge)
+        if inp['reg'] and rng.random() < .5:
+            inp['rv'] = rng.choice([1, (1 << inp['w']) - 1, rng.randrange(1 << inp['w']), -1, (1 << inp['w']) + 5])
     sc = {'inputs': inputs, 'gate': rng.random() < .2}
     lay = layout(sc)
     ents = []
@@ -107,7 +110,9 @@ def ref_run(sc):
     into each edge) and the expected sample list per wire after the operation."""
     lay = layout(sc); nin = len(sc['inputs'])
     mask = lambda i: (1 << sc['inputs'][i]['w']) - 1
-    inv = [0] * nin; q = [0] * nin; en = 0
+    inv = [0] * nin; en = 0
+    # Reg.__init__ puts the masked initial value on q (repo fix 1f058fe); older trees leave q at 0 until the first edge
+    q = [((sc['inputs'][i].get('rv') or 0) & mask(i)) if netlist.POWERUP_Q else 0 for i in range(nin)]
     def vals():
         out = []
         for x in lay:
@@ -150,7 +155,7 @@ def build_real(sc):
         byname = {x['name']: w for x, w in zip(lay, wires)}
         regs, invs = {}, {}
         for i, inp in enumerate(sc['inputs']):
-            if inp['reg']: regs[i] = py4hw.Reg(hw, 'r%d' % i, byname['in%d' % i], byname['q%d' % i])
+            if inp['reg']: regs[i] = py4hw.Reg(hw, 'r%d' % i, byname['in%d' % i], byname['q%d' % i], reset_value=inp.get('rv'))
             if inp['inv']: invs[i] = py4hw.Not(hw, 'inv%d' % i, byname['in%d' % i], byname['n%d' % i])
         objs = []
         for k, form in sc['entries']:
@@ -432,7 +437,8 @@ def sweep_B(ctx, n, seed_base, n_steps):
     for i, (dp, steps, iv, trace, recs, seed, info) in enumerate(batch):
         body.append(dp.coq_design('d%d' % i))
         exp = '[' + '; '.join(zlist(v) for v in [iv] + trace) + ']'
-        body.append('Definition run%d := run_states d%d (init d%d d%d_st0) %s.\n' % (i, i, i, i, netlist.steps_term(steps)))
+        pk = '[' + '; '.join('(%d%%nat, %s)' % (w, zlit(v)) for w, v in getattr(dp, 'init_pokes', [])) + ']'
+        body.append('Definition run%d := run_states d%d (init_poked d%d d%d_st0 %s) %s.\n' % (i, i, i, i, pk, netlist.steps_term(steps)))
         items.append(('v%d' % i, 'first_diff %s (map vals run%d)' % (exp, i)))
         items.append(('r%d' % i, 'first_false (map2 dict_eqb (map (rec_at %d%%nat) (tl run%d)) [%s])' % (dp.rec_index, i, '; '.join(dict_term(r) for r in recs))))
     res = common.coq_eval('C15_B', '\n'.join(body), items)
